@@ -115,7 +115,7 @@ theorem mkcp_rejects_overflow (rsize : Nat) (rs : List RLine) (r : RLine) (hr : 
 /-- … and so is the whole source: if the body of some processor of `src` has such a line,
     `assemble` answers with an error, never with a machine. -/
 theorem assemble_rejects_overflow (src : Source) (fix : Bool) (rs : List RLine)
-    (hbody : ∀ ss, mapE (secPrep fix src) src.sections = .ok ss → ∃ c ∈ src.cps, cpBody ss c = .ok rs)
+    (hbody : ∀ ss, mapE (secPrep fix src) src.sections = .ok ss → ∃ c ∈ src.procs, cpBody ss c = .ok rs)
     (r : RLine) (hr : r ∈ rs) (pre post : List Arg) (n : Nat) (hargs : r.args = pre ++ .num n :: post)
     (fs : List FieldKind) (f : FieldKind) (hlay : layout r.op = some fs) (hlen : lenientArity r.op = false)
     (hf : fs[pre.length]? = some f)
